@@ -1,0 +1,8 @@
+//go:build verif
+
+package types
+
+// Export-only accessor for the verification harness (property C14). No behaviour.
+
+// VerifC14SamplingKeyFields returns the sampling key fields the unmarshaler extracts at ingestion.
+func VerifC14SamplingKeyFields(cu CoreFieldsUnmarshaler) []string { return cu.samplingKeyFields }
